@@ -56,8 +56,10 @@ def run_e2e(args):
         rec = {"case": {k: a[k] for k in a if k != "root"}, "mds": [int(si.custom_metadata.get("k", 0)) for si in infos], "shard_ids": shard_ids, "runs": []}
         for opt in a["options"]:
             kw = {}
-            if opt.get("k") is not None: kw["shards"] = opt["k"]
-            if opt.get("limit") is not None: kw["custom_metadata_type_limit"] = opt["limit"]
+            import numpy as np
+            num = getattr(np, opt["np"]) if opt.get("np") else int       # the number as the caller has it: a Python int or a NumPy integer scalar (arr.min(), rng.integers(..))
+            if opt.get("k") is not None: kw["shards"] = num(opt["k"])
+            if opt.get("limit") is not None: kw["custom_metadata_type_limit"] = num(opt["limit"])
             if opt.get("keep") is not None:
                 keep = set(opt["keep"])
                 kw["shard_filter"] = (lambda si, keep=keep: int(si.custom_metadata.get("k", 0)) in keep)
@@ -170,6 +172,7 @@ def run(ctx):
                    {"keep": [1]}, {"keep": [1, 2, 3]}, {"keep": [9]}, {"k": 3, "limit": 1}, {"keep": [1, 2], "limit": 1, "k": n}]
         if not ctx.thorough:
             options = [options[j] for j in (0, 2, 3, 4, 6, 8, 9, 10)]
+        options += [{"k": 1 + i % 2, "np": "int64"}, {"limit": 1, "np": "int32"}, {"k": 3, "limit": 1, "np": "uint8"}]
         cases.append({"root": str(ctx.scratch / f"c12_{i}"), "fmt": fmt, "comp": "", "eps": 2, "groups": groups, "options": options,
                       "shuffles": [0, 3] if ctx.thorough else [0 if i % 2 else 3],
                       # no checksum algorithm is a legal configuration; the handle that selected and iterated keeps being used after a further session
@@ -249,7 +252,7 @@ def run(ctx):
         "evaluations": nruns + len(reqs), "distinct_nontrivial": len(distinct), "traces_validated_against_impl": len(reqs) - len(corr_bad),
         "generated_table_rows": len(rows), "generated_table_accept_without_forward": [list(r) for r in bad_rows],
         "rule": "datasets with 3-7 shards in metadata groups (contiguous and interleaved layouts, flat and nested metadata values) on fb/npz/tfrec; options first-k "
-                "(1, n-1, n+2), predicates (some/all/none), per-metadata limit (1, 2, n+1) and combinations; every interface that accepts the option, shuffled and not; "
+                "(1, n-1, n+2), predicates (some/all/none), per-metadata limit (1, 2, n+1) and combinations, the numbers given as Python ints and as NumPy integer scalars; every interface that accepts the option, shuffled and not; "
                 "distinct = (format, interface, option set, unshuffled?)",
         "samples": [{"case": recs[0]["case"], "mds": recs[0]["mds"], "run": {k: v for k, v in recs[0]["runs"][0].items() if k != "ifaces"}}] if recs else [],
         "input_distribution": {"iface_runs": nruns, "selections": len(reqs), "options": collections.Counter("+".join(sorted(x["opt"])) for r in recs for x in r["runs"])},
